@@ -20,7 +20,7 @@ from vf import coq
 from vf.core import REPO, sh
 
 
-LIB_PREFIX = ("c19lib.", "builtins.", "posix.", "math.", "sys.", "generator.", "uftrace_python.", "traceback.")
+LIB_PREFIX = ("c19lib.", "builtins.", "posix.", "math.", "sys.", "generator.", "uftrace_python.", "traceback.", "importlib.", "c19cw.")
 OPAQUE = ("c19lib.q_dump", "traceback.print_exc")     # library functions whose inside is not logged
 
 C19LIB = '''import os
@@ -80,6 +80,14 @@ def q_g(f, x):
     finally:
         c19lib.LOG += ['X c19mod.q_g']
 '''
+
+# a module next to the script, and a module of the same name in a directory that PYTHONPATH lists earlier
+C19SIB = "import c19lib\nc19lib.LOG += ['E c19sib.<module>', 'X c19sib.<module>']\nWHO = 'the module next to the script'\ndef q_s(x):\n    c19lib.LOG += ['E c19sib.q_s', 'X c19sib.q_s']\n    return x + 1\n"
+C19SIB_SHADOW = "import c19lib\nc19lib.LOG += ['E c19sib.<module>', 'X c19sib.<module>']\nWHO = 'a module of the same name elsewhere on sys.path'\ndef q_s(x):\n    c19lib.LOG += ['E c19sib.q_s', 'X c19sib.q_s']\n    return x - 1\n"
+
+# a module on PYTHONPATH, and a module of the same name in the current directory (which is not on the path of a plain run)
+C19CW = "import c19lib\nc19lib.LOG += ['E c19cw.<module>', 'X c19cw.<module>']\nWHO = 'the module PYTHONPATH names'\n"
+C19CW_CWD = "import c19lib\nc19lib.LOG += ['E c19cw.<module>', 'X c19cw.<module>']\nWHO = 'a module that happens to lie in the current directory'\n"
 
 SITE = "import os, sys, math, traceback, linecache\nimport c19lib\nimport c19mod\n"
 
@@ -372,16 +380,25 @@ class World:
         open(os.path.join(self.root, "lib/c19lib.py"), "w").write(C19LIB)
         open(os.path.join(self.root, "site/sitecustomize.py"), "w").write(SITE)
         open(os.path.join(self.root, "main/c19mod.py"), "w").write(C19MOD)
+        open(os.path.join(self.root, "main/c19sib.py"), "w").write(C19SIB)
+        open(os.path.join(self.root, "lib/c19sib.py"), "w").write(C19SIB_SHADOW)
+        os.makedirs(os.path.join(self.root, "cw"), exist_ok=True)
+        open(os.path.join(self.root, "lib/c19cw.py"), "w").write(C19CW)
+        open(os.path.join(self.root, "cw/c19cw.py"), "w").write(C19CW_CWD)
+        self.order, self.cwdname = "lib:main", "root"       # PYTHONPATH order of lib/ and the script's directory; cwd
         self.prog = os.path.join(self.root, "main/prog.py")
         self.uft = os.path.join(objdir, "uftrace")
-        r = self.root
-        self.pypath = ":".join([r + "/site", r + "/lib", r + "/main", os.path.join(objdir, "python"), os.path.join(REPO, "python")])
 
     def env(self):
+        r = self.root
+        mid = [r + "/lib", r + "/main"] if self.order == "lib:main" else [r + "/main", r + "/lib"]
         e = {k: v for k, v in os.environ.items() if not k.startswith("UFTRACE_")}
-        e["PYTHONPATH"] = self.pypath
+        e["PYTHONPATH"] = ":".join([r + "/site"] + mid + [os.path.join(self.objdir, "python"), os.path.join(REPO, "python")])
         e["PYTHONDONTWRITEBYTECODE"] = "1"
         return e
+
+    def cwd(self):
+        return self.root if self.cwdname == "root" else os.path.join(self.root, self.cwdname)
 
     def write(self, prog):
         # the interpreter itself in the #! line (not a version-manager shim: a shell script that starts a dozen
@@ -403,16 +420,17 @@ class World:
 
     def native(self, form="abs"):
         """the script run directly (through its #! line, like uftrace does), same command line as the traced run"""
-        if form in self.natcache:
-            return self.natcache[form]
+        key = (form, self.order, self.cwdname)
+        if key in self.natcache:
+            return self.natcache[key]
         log = os.path.join(self.root, "log.txt")
         if os.path.exists(log):
             os.remove(log)
         import subprocess
         p = subprocess.run(["timeout", "20", self.script(form), log], env=self.env_for(form), capture_output=True, text=True,
-                           cwd=self.root, timeout=40)
-        self.natcache[form] = (p.returncode, p.stdout, p.stderr, (open(log).read().split("\n") if os.path.exists(log) else None))
-        return self.natcache[form]
+                           cwd=self.cwd(), timeout=40)
+        self.natcache[key] = (p.returncode, p.stdout, p.stderr, (open(log).read().split("\n") if os.path.exists(log) else None))
+        return self.natcache[key]
 
     def traced(self, lib, env, patt=None, form="abs"):
         import subprocess
@@ -433,7 +451,7 @@ class World:
         cmd = ["timeout", "30", self.uft, "record", "--no-pager", "--no-event", "--libmcount-path=" + self.objdir,
                "-d", d] + opts + [self.script(form), log]    # rel: main_dir by realpath(); path: looked up in PATH
         t0 = time.time()
-        p = subprocess.run(cmd, env=self.env_for(form), capture_output=True, text=True, cwd=self.root, timeout=60)
+        p = subprocess.run(cmd, env=self.env_for(form), capture_output=True, text=True, cwd=self.cwd(), timeout=60)
         self.t_record = getattr(self, "t_record", 0.0) + time.time() - t0
         if os.environ.get("VERIF_DEBUG"):
             self.ctx.log("record %.2fs rc=%s %s" % (time.time() - t0, p.returncode, " ".join(cmd[7:])[-90:]))
@@ -441,7 +459,7 @@ class World:
             # no task data at all: legitimate when nothing is selected; seen once as a transient on a loaded
             # machine - record again and note it if the second recording differs
             shutil.rmtree(d, ignore_errors=True)
-            p = subprocess.run(cmd, env=self.env_for(form), capture_output=True, text=True, cwd=self.root, timeout=60)
+            p = subprocess.run(cmd, env=self.env_for(form), capture_output=True, text=True, cwd=self.cwd(), timeout=60)
             if os.path.isdir(d) and [f for f in os.listdir(d) if f.endswith(".dat")]:
                 self.ctx.extra["e2e_empty_recording_not_reproduced"] = self.ctx.extra.get("e2e_empty_recording_not_reproduced", 0) + 1
                 self.ctx.log("note: a recording without any task data was not reproduced on the second run:", " ".join(cmd[2:]))
@@ -668,6 +686,23 @@ DYN_PROG = {"src": "#!/usr/bin/env python3\nimport sys\nimport c19lib\n"
                    "c19lib.q_dump(sys.argv[1])\n",
             "ending": "normal", "fnames": ["q_run"], "tags": ["fixed:functions-made-at-run-time"]}
 
+# the script imports the module next to it: sys.path[0] is the script's directory as in a plain run, wherever
+# else that directory or a module of the same name is listed (seed C19-11: "do not add it twice")
+SIB_PROG = {"src": "#!/usr/bin/env python3\nimport sys\nimport c19lib\n"
+                   "c19lib.LOG += ['E importlib._bootstrap._find_and_load']\nimport c19sib\nc19lib.LOG += ['X importlib._bootstrap._find_and_load']\n"
+                   "def q_a():\n    c19lib.LOG += ['E q_a']\n    r = c19sib.q_s(1)\n    c19lib.LOG += ['E builtins.print']\n"
+                   "    print(c19sib.WHO, r)\n    c19lib.LOG += ['X builtins.print', 'X q_a']\n"
+                   "q_a()\nc19lib.q_dump(sys.argv[1])\n",
+            "ending": "normal", "fnames": ["q_a"], "tags": ["fixed:sibling-module"]}
+
+# the current directory is not on the module search path of a script (was sys.path[1] under `python -m uftrace`
+# before fix e6ae373): a module lying there must not shadow the one the plain run imports
+CWD_PROG = {"src": "#!/usr/bin/env python3\nimport sys\nimport c19lib\n"
+                   "c19lib.LOG += ['E importlib._bootstrap._find_and_load']\nimport c19cw\nc19lib.LOG += ['X importlib._bootstrap._find_and_load']\n"
+                   "c19lib.LOG += ['E builtins.print']\nprint(c19cw.WHO)\nc19lib.LOG += ['X builtins.print']\n"
+                   "c19lib.q_dump(sys.argv[1])\n",
+            "ending": "normal", "fnames": [], "tags": ["fixed:module-in-cwd"]}
+
 OSEXIT_PROG = {"src": "#!/usr/bin/env python3\nimport os, sys\nimport c19lib\ndef q_b():\n    c19lib.LOG += ['E q_b', 'X q_b']\n"
                       "def q_a():\n    c19lib.LOG += ['E q_a']\n    q_b()\n    c19lib.q_dump(sys.argv[1])\n    os._exit(4)\nq_a()\n",
                "ending": "os._exit", "fnames": ["q_a", "q_b"], "tags": ["witness:os._exit"]}
@@ -739,6 +774,25 @@ def run(ctx, objdir):
             if k is not None:
                 ecases.append(k)
                 ctx.case(key=("e2e-fixed", name, form), tags=["e2e:fixed-" + name, "e2e:script-path:" + form])
+    w.write(SIB_PROG)
+    for order, cwdname, lib in (("lib:main", "root", "SINGLE"), ("lib:main", "root", "NONE"), ("main:lib", "lib", "SINGLE"),
+                                ("main:lib", "root", "NONE")):       # (not --nest-libcall: the inside of the import machinery is not logged)
+        w.order, w.cwdname = order, cwdname
+        k = one_config(ctx, w, SIB_PROG, None, lib, None, None, "abs")
+        if k is not None:
+            k["rep"]["pythonpath_order"], k["rep"]["cwd"] = order, cwdname
+            ecases.append(k)
+            ctx.case(key=("e2e-fixed", "sibling-module", order, cwdname, lib),
+                     tags=["e2e:fixed-sibling-module", "e2e:PYTHONPATH:" + order, "e2e:cwd:" + cwdname, "e2e:lib:" + lib])
+    w.write(CWD_PROG)
+    for lib in ("SINGLE", "NONE"):
+        w.order, w.cwdname = "lib:main", "cw"
+        k = one_config(ctx, w, CWD_PROG, None, lib, None, None, "abs")
+        if k is not None:
+            k["rep"]["cwd"] = "cw"
+            ecases.append(k)
+            ctx.case(key=("e2e-fixed", "module-in-cwd", lib), tags=["e2e:fixed-module-in-cwd", "e2e:cwd:cw", "e2e:lib:" + lib])
+    w.order, w.cwdname = "lib:main", "root"
     # a script ended by os._exit: the hook of python/uftrace.py must still write the symbol table
     w.write(OSEXIT_PROG)
     nat = w.native()
